@@ -4,6 +4,7 @@ import (
 	"testing"
 
 	"verifsim/core"
+	_ "verifsim/scen/c01"
 	_ "verifsim/scen/c16"
 )
 
